@@ -10,7 +10,7 @@ TraceInit == l = 1 /\ mode = "admit" /\ kind = "pdf" /\ ext = "pdf" /\ ecase = "
 TraceAdmit ==
     /\ l <= Len(Trace) /\ Ev.event = "Admit" /\ l' = l + 1
     /\ mode' = Ev.mode /\ kind' = Ev.kind /\ ext' = Ev.ext
-    /\ epub' = [rights |-> Ev.epub.rights, enc |-> SetOf(Ev.epub, "enc"), algo |-> Ev.epub.algo, uri |-> Ev.epub.uri, rfirst |-> Ev.epub.rfirst]
+    /\ epub' = [rights |-> Ev.epub.rights, enc |-> SetOf(Ev.epub, "enc"), algo |-> Ev.epub.algo, uri |-> Ev.epub.uri, rfirst |-> Ev.epub.rfirst, rev |-> Ev.epub.rev]
     /\ UNCHANGED <<ecase, order, decoy, tgt, then>>
     /\ Ev.detect = Ev.kind
     /\ LET want == IF Ev.mode = "drm" THEN DrmVerdict(epub')
